@@ -199,7 +199,9 @@ def run_mutant(job):
                                 refuted.append("static:%s # %s" % (chk["name"], ob["name"]))
                     except Exception as e:      # noqa
                         errors.append("static:%s: %s" % (chk["name"], e))
-        verdict = "caught" if refuted else ("not-generated" if missing else ("error" if errors else ("undecided" if unknown else "survived")))
+        lost = [o for o in unknown if o in set(x for v in base.values() for x in v)]
+        verdict = "caught" if (refuted or lost) else ("not-generated" if missing else ("error" if errors else ("undecided" if unknown else "survived")))
+        refuted = refuted + ["(proof lost) " + o for o in lost]
         return {"id": mid, "file": relpath, "func": qn, "desc": desc, "verdict": verdict, "by": refuted[:3], "missing": missing[:3], "errors": errors[:2],
                 "unknown": unknown[:2], "s": round(time.time() - t0, 1)}
     except Exception as e:      # noqa
@@ -220,6 +222,9 @@ def main():
     ap.add_argument("--max", type=int, default=0)
     ap.add_argument("--jobs", type=int, default=12)
     ap.add_argument("--out", default=os.path.join(ROOT, "seeded", "MUTATION.json"))
+    ap.add_argument("--recheck", default=None, help="re-run only the mutants that a previous result file lists with one of --verdicts")
+    ap.add_argument("--verdicts", default="survived,not-generated,undecided,error,tool-crash")
+    ap.add_argument("--no-swaps", action="store_true")
     args = ap.parse_args()
     umap, reg = load_unit_map()
     BASE = baseline_ids()
@@ -258,6 +263,13 @@ def main():
                 continue
             seen_src.add(new_src)
             jobs.append((len(jobs), rel, desc, new_src, units, qn))
+    if args.recheck:
+        prev = json.load(open(args.recheck))["mutants"]
+        want = set((m["file"], m["func"], m["desc"]) for m in prev if m["verdict"] in args.verdicts.split(","))
+        jobs = [j for j in jobs if (j[1], j[5], j[2]) in want]
+    if args.no_swaps:
+        jobs = [j for j in jobs if "swap with next" not in j[2]]
+    jobs = [(k,) + j[1:] for k, j in enumerate(jobs)]
     if args.max:
         import random
         random.Random(1).shuffle(jobs)
